@@ -2,6 +2,7 @@ import Martian.Dataflow
 import Martian.Resolver
 import Martian.ResolverStatic
 import Martian.ResolverStaticCheck
+import Martian.ResolverStaticTree
 import Driver.Util
 
 /-!
@@ -14,7 +15,7 @@ Line-protocol handler for property C01.
   C01.static <program> <observations | ->  → the two-phase resolver model on a PLAIN program:
        `skip not-plain`, or TAB separated
          static  frag=0|1  den=eq|neq|na  rt=ok|na|<class|where|param|expected|observed>  <canonical static phase>
-       frag: the decidable hypotheses of `resolver_refines_den_staticmap_checked` hold (for a
+       frag: the decidable hypotheses of `resolver_refines_den_mapstatic_checked` hold (for a
              plain program they are those of `resolver_refines_den_plain_checked`);
        den:  twoPhase = den on the recorded outs (must be `eq` whenever frag=1: the theorem);
        rt:   the model's run-time phase on the model's static phase against the OBSERVED
@@ -298,8 +299,9 @@ def checkAll (P : Program) (obs : Obs) : List String × Nat :=
   let joinDiffs := obs.joins.flatMap fun j =>
     (if (joinChunkDefs (j.defs.map fieldsOf)).matches j.obsDefs then []
      else [mkDiff "chunk-defs" j.key "_chunk_defs" (joinChunkDefs (j.defs.map fieldsOf)) j.obsDefs]) ++
-    (if (joinChunkOuts j.outs).matches j.obsOuts then []
-     else [mkDiff "chunk-outs" j.key "_chunk_outs" (joinChunkOuts j.outs) j.obsOuts])
+    -- a join that was launched read every chunk's outs (`doJoinRead`: otherwise the fork fails)
+    (if (doJoinRead (j.outs.map some)).2 && (doJoinRead (j.outs.map some)).1.matches j.obsOuts then []
+     else [mkDiff "chunk-outs" j.key "_chunk_outs" (doJoinRead (j.outs.map some)).1 j.obsOuts])
   let topDiff := (diffRecord "top-outs" P.top.id
       ((fieldsOf d.1).filter fun kv => !obs.skip.contains kv.1)
       ((fieldsOf obs.top).filter fun kv => !obs.skip.contains kv.1)).toList
@@ -334,25 +336,35 @@ def idxText : Idx → String
 
 /-- `fs`: the `fork` annotations above (rendered inside the references they qualify, like
 the known indices of `RefExp.Forks`; sorted by call id, innermost annotation wins) -/
-partial def printRF (fs : List (String × Idx)) : RExp → String
+partial def printRF (table : List (String × List String)) (ctl : List String) (fs : List (String × Idx)) : RExp → String
   | .lit j => "(lit " ++ printJV j ++ ")"
-  | .arr xs => "(arr" ++ String.join (xs.map fun x => " " ++ printRF fs x) ++ ")"
+  | .arr xs => "(arr" ++ String.join (xs.map fun x => " " ++ printRF table ctl fs x) ++ ")"
   | .map kvs => "(map" ++ kvText kvs ++ ")"
   | .struct kvs => "(st" ++ kvText kvs ++ ")"
   | .ref node _ path =>
     "(ref " ++ node ++
-      String.join ((sortKV (fs.map fun e => (e.1, idxText e.2))).map fun e => " (fk " ++ e.1 ++ " " ++ e.2 ++ ")") ++
+      String.join ((sortKV ((fs.filter fun e => ((table.lookup node).getD []).contains e.1).map fun e =>
+        (e.1, idxText e.2))).map fun e => " (fk " ++ e.1 ++ " " ++ e.2 ++ ")") ++
       String.join (path.map fun p => " " ++ p) ++ ")"
-  | .split c _ e => "(split " ++ c ++ " " ++ printRF fs e ++ ")"
-  | .merge c _ e => "(merge " ++ c ++ " " ++ printRF fs e ++ ")"
-  | .disabled d v => "(dis " ++ printRF fs d ++ " " ++ printRF fs v ++ ")"
-  | .fork c ix e => printRF ((c, ix) :: fs.filter fun x => x.1 != c) e
+  | .split c _ e => "(split " ++ c ++ " " ++ printRF table ctl fs e ++ ")"
+  | .merge c _ e => "(merge " ++ c ++ " " ++ printRF table ctl fs e ++ ")"
+  | .disabled d v =>
+    -- two wrappers on the same control are one (the compiler's pointer-equality shortcut)
+    -- a control that is itself conditional on an enclosing control is that control's value
+    -- (`resolveDisableExp`, case `*DisabledExp`: "already disabled on the same control")
+    let ds := match d with
+      | .disabled d0 x => if ctl.contains (printRF table ctl fs d0) then printRF table ctl fs x else printRF table ctl fs d
+      | _ => printRF table ctl fs d
+    let vs := printRF table (ds :: ctl) fs v
+    if ctl.contains ds then vs
+    else if vs.startsWith ("(dis " ++ ds ++ " ") then vs else "(dis " ++ ds ++ " " ++ vs ++ ")"
+  | .fork c ix e => printRF table ctl ((c, ix) :: fs.filter fun x => x.1 != c) e
 where
   kvText (kvs : List (String × RExp)) : String :=
-    String.join ((sortKV (kvs.map fun kv => (hexOfStr kv.1, printRF fs kv.2))).map fun kv =>
+    String.join ((sortKV (kvs.map fun kv => (hexOfStr kv.1, printRF table ctl fs kv.2))).map fun kv =>
       " (kv " ++ kv.1 ++ " " ++ kv.2 ++ ")")
 
-def printR : RExp → String := printRF []
+def printR (table : List (String × List String)) (ctl : List String) : RExp → String := printRF table ctl []
 
 partial def hasFork : RExp → Bool
   | .lit _ => false
@@ -365,34 +377,77 @@ partial def hasFork : RExp → Bool
   | .disabled d v => hasFork d || hasFork v
   | .fork _ _ _ => true
 
+partial def hasSplit : RExp → Bool
+  | .lit _ => false
+  | .arr xs => xs.any hasSplit
+  | .map kvs => kvs.any fun kv => hasSplit kv.2
+  | .struct kvs => kvs.any fun kv => hasSplit kv.2
+  | .ref _ _ _ => false
+  | .split _ _ _ => true
+  | .merge _ _ e => hasSplit e
+  | .disabled d v => hasSplit d || hasSplit v
+  | .fork _ _ e => hasSplit e
+
 def fqid (path : List String) : String := ".".intercalate path
 
-def printStatic (s : RB × List SNode) : String :=
-  "(cg" ++ String.join (s.2.map fun n =>
-    " (node " ++ fqid n.path ++ " (forks" ++ String.join (n.forks.map fun d => " " ++ d.1) ++ ")" ++
+def isLitTrue : RExp → Bool
+  | .lit (.atom s) => s == "true"
+  | _ => false
+
+/-- `table`: node name ↦ the fork roots it depends on (what the compiler prints) -/
+def printStatic (table : List (String × List String)) (out : RExp) (nodes : List SNode) : String :=
+  "(cg" ++ String.join ((nodes.filter fun n => !n.disable.any isLitTrue).map fun n =>
+    -- the node's controls, each simplified with respect to the earlier ones, without repetitions
+    let ctl := n.disable.foldl (fun acc d =>
+      let ds := match d with
+        | .disabled d0 x => if acc.contains (printR table acc d0) then printR table acc x else printR table acc d
+        | _ => printR table acc d
+      if acc.contains ds then acc else acc ++ [ds]) []
+    " (node " ++ fqid n.path ++ " (forks" ++
+      String.join (((table.lookup (fqid n.path)).getD []).map fun d => " " ++ d) ++ ")" ++
+      " (disabled" ++ String.join (ctl.map fun d => " " ++ d) ++ ")" ++
       String.join (n.inputs.map fun kv =>
-      s!" (in {kv.1} {kv.2.ty.base} {kv.2.ty.mapDim} {kv.2.ty.arrDim} " ++ printR kv.2.exp ++ ")") ++ ")") ++
-  " (out " ++ printR s.1.exp ++ "))"
+        s!" (in {kv.1} {kv.2.ty.base} {kv.2.ty.mapDim} {kv.2.ty.arrDim} " ++ printR table [] kv.2.exp ++ ")") ++ ")") ++
+  " (out " ++ printR table [] out ++ "))"
+
+def noDisabled (P : Program) : Bool :=
+  Call.plain P.top && P.callables.all fun c =>
+    match c.2 with
+    | .stage _ _ => true
+    | .pipeline _ _ calls _ => calls.all fun c => c.disabled.isNone
+
+/-- den (may contain `dnull`) against the model's run-time values -/
+def sameRun (a b : J × List Inst) : Bool :=
+  a.1.matches b.1 && a.2.length == b.2.length &&
+    (a.2.zip b.2).all fun p => renderKey p.1.key == renderKey p.2.key && p.1.args.matches p.2.args
 
 def staticReply (P : Program) (obs : Option Obs) : String :=
-  if !Program.mapsOfStages P then "skip not-plain" else
-  let s := staticProgram P fqid
-  if s.2.any (fun n => n.forks.any fun d => d.2.isEmpty) then "skip map-source-not-static" else
-  if s.2.any (fun n => !n.forks.isEmpty && n.inputs.any fun kv =>
-      match kv.2.exp with
-      | .split _ _ e => hasFork e
-      | _ => false) then "skip map-source-depends-on-map-call" else
-  let frag := wellTypedMB P && acyclicB P.table && decide ((s.2.map fun n => fqid n.path).Nodup)
+  if !Call.plain P.top then "skip not-plain" else
+  let s := staticProgramT P fqid
+  if !treeOkList [] s.2 then "skip map-source-not-static" else
+  let nodes := flattenDList [] [] s.2
+  -- a control that is an element of a split collection (`resolveDisableExp` on `SplitExp`: single
+  -- elements, all-equal literals, … are simplified away): not covered
+  if nodes.any (fun n => n.disable.any hasSplit) then "skip disabled-control-depends-on-split" else
+  let table := goForksTable fqid nodes []
+  -- the hypotheses of the proved refinement (they speak about the flat static phase of
+  -- Martian/ResolverStatic.lean: map calls of stages only)
+  let frag := callGraphAcyclicB P && noGuardList s.2 && Program.mapsOfStages P && wellTypedGB P && acyclicB P.table && staticProgramOk P fqid &&
+    decide (((staticProgram P fqid).2.map fun n => fqid n.path).Nodup)
+  -- … and of the refinement over the tree-shaped static phase (mapped pipelines, nested map calls)
+  let fragT := callGraphAcyclicB P && noGuardList s.2 && wellTypedTB P && acyclicB P.table &&
+    decide ((nodes.map fun n => fqid n.path).Nodup)
   let (denV, rtV) :=
     match obs with
     | none => ("na", "na")
     | some obs =>
       let O : Oracle := oracleOf obs.outs
-      let ρ := storeOfNodes fqid s.2 O
+      let ρ := storeOfNodes fqid nodes O
       let d := den P O
-      let t := twoPhaseM P fqid ρ
-      let same := render d.1 == render t.1 && d.2.length == t.2.length &&
-        (d.2.zip t.2).all fun p => renderKey p.1.key == renderKey p.2.key && render p.1.args == render p.2.args
+      let t := twoPhaseT P fqid ρ
+      -- (the tree theorem says den = twoPhaseT exactly when fragT; compared for every program anyway)
+      let same := sameRun d t &&
+        (!frag || sameRun d (twoPhaseM P fqid (storeOfNodes fqid (staticProgram P fqid).2 O)))
       let jobDiff := obs.jobs.findSome? fun j =>
         if j.chunk then none else
         match t.2.find? (fun i => covers j.inst i.key) with
@@ -402,7 +457,8 @@ def staticReply (P : Program) (obs : Option Obs) : String :=
         ((fieldsOf t.1).filter fun kv => !obs.skip.contains kv.1)
         ((fieldsOf obs.top).filter fun kv => !obs.skip.contains kv.1)
       (if same then "eq" else "neq", match jobDiff.orElse (fun _ => topDiff) with | some d => d | none => "ok")
-  "\t".intercalate ["static", s!"frag={if frag then 1 else 0}", "den=" ++ denV, "rt=" ++ rtV, printStatic s]
+  "\t".intercalate ["static", s!"frag={if frag || fragT then 1 else 0}", "den=" ++ denV, "rt=" ++ rtV,
+    printStatic table s.1.exp nodes]
 
 end static
 
@@ -458,16 +514,16 @@ def handle (op : String) (args : List String) : Option String :=
     pure (s!"{rt.base} {rt.mapDim} {rt.arrDim}\t" ++
       render (narrow ss (ss.length + 2) dty.ty (projPath ss ty.ty pth val)) ++ "\t" ++
       render (narrow ss (ss.length + 2) dty.ty (resolvePath ss ty.ty pth val)))
-  | "narrow", [st, t, v] => do
-    let ss ← match (← parseSX st) with
-      | .l (.a "structs" :: ss) => ss.mapM fun s =>
-          match s with
-          | .l (.a "s" :: .a n :: ps) => do pure (n, (← ps.mapM pParam))
-          | _ => none
+  | "joinread", [r] => do
+    -- r = (l R*) with R = u (unreadable) | JV : `doJoin`'s read of the chunk outs
+    let reads ← match (← parseSX r) with
+      | .l (.a "l" :: rs) => rs.mapM fun x =>
+          match x with
+          | .a "u" => some (none : Option J)
+          | y => (pJ y).map some
       | _ => none
-    let ty ← pParam (← parseSX t)
-    let val ← pJ (← parseSX v)
-    pure (render (narrow ss (ss.length + 2) ty.ty val))
+    let res := doJoinRead reads
+    pure (s!"launched={if res.2 then 1 else 0}\t" ++ render res.1)
   | _, _ => none
 
 end Driver.C01
